@@ -36,6 +36,7 @@ COMPONENTS = {
     "simulated": ["Dask executor", "storage (SimFS): listing order, latency, store mode", "uuid4"],
 }
 EXPECTED_PROBES = ["writer_to_parquet", "writer_pack", "ge_11_partitions", "read_list",
+                   "read_list_unsorted", "rewrite_after_filter",
                    "read_glob", "bounds_kw", "geometry_kw", "box_touches_partition_extent",
                    "box_disjoint_from_all", "partition_with_undefined_extent", "pruned_some",
                    "end_to_end_cx"]
@@ -65,12 +66,15 @@ def cases(tier, base_seed):
         for _ in range(rng.randint(2, 4)):
             how = rng.choice(("path", "path", "list", "glob")) if two else "path"
             reads.append({"how": how, "ds": rng.choice(("ds_0", "ds_1")) if two else "ds_0",
+                          "list_reversed": rng.random() < 0.5,
                           "geometry": rng.choice([None, None] + geo),
                           "bounds": rng.choice(("none", "box", "box", "aligned", "aligned",
                                                 "disjoint")),
                           "box": gen.gen_box(rng), "pick": rng.getrandbits(16),
                           "reverse": rng.random() < 0.3})
-        yield {"seed": seed, "frame": spec, "writes": writes, "reads": reads,
+        rewrite = {"mod": rng.choice((2, 3)), "rem": rng.randint(0, 1)} \
+            if rng.random() < 0.35 else None
+        yield {"seed": seed, "frame": spec, "writes": writes, "reads": reads, "rewrite": rewrite,
                "sim": e1.gen_sim_cfg(rng), "store": e1.gen_store_cfg(rng)}
         i += 1
 
@@ -177,11 +181,34 @@ def _drive(case, root, fs, probes, sig):
         probes["stored_partitions"] = max(probes.get("stored_partitions", 0), len(parts))
     if not stored:
         return
+    if case.get("rewrite") and "ds_0" in stored:
+        # a dataset written from a frame that already carries stored bounds and was then
+        # row-filtered: its recorded bounds must be those of the rows actually written
+        probes["rewrite_after_filter"] = 1
+        src = _guard("read_parquet_dask", lambda: read_parquet_dask(
+            os.path.join(base, "ds_0"), filesystem=fs), sig)
+        m = case["rewrite"]
+        flt = src[src["v"] % m["mod"] != m["rem"]]
+        path = os.path.join(base, "ds_2")
+        sig["writer"] = "rewrite"
+        _guard("to_parquet after filter", lambda: flt.to_parquet("simfs://" + path), sig)
+        parts = []
+        for f in e3.part_files(path):
+            df = e3.read_part(f)
+            parts.append({"vals": {c: models.array_values(df[c].array) for c in geo},
+                          "recs": models.frame_records(df, with_index=False),
+                          "cols": list(df.columns)})
+        stored["ds_2"] = parts
     first_geo = next(c for c in spec["order"] if c in geo)
     for r in case["reads"]:
-        dss = sorted(stored) if r["how"] in ("list", "glob") else \
-            [r["ds"] if r["ds"] in stored else sorted(stored)[0]]
+        pick = r["ds"] if r["ds"] in stored else sorted(stored)[0]
+        if "ds_2" in stored and r["pick"] % 3 == 0:
+            pick = "ds_2"
+        dss = sorted(stored) if r["how"] in ("list", "glob") else [pick]
         if r["how"] == "list":
+            if r.get("list_reversed"):
+                dss = dss[::-1]          # a list is loaded in the order given
+                probes["read_list_unsorted"] = 1
             arg = [os.path.join(base, d) for d in dss]
             probes["read_list"] = 1
         elif r["how"] == "glob":
@@ -310,6 +337,10 @@ def shrink_candidates(case):
             d = copy.deepcopy(c)
             del d["reads"][i]
             yield d
+    if c.get("rewrite"):
+        d = copy.deepcopy(c)
+        d["rewrite"] = None
+        yield d
     if len(c["writes"]) > 1:
         d = copy.deepcopy(c)
         d["writes"] = d["writes"][:1]
